@@ -1,5 +1,5 @@
 --------------------------- MODULE XmlReaderOps ---------------------------
-(* The recursive-descent reader of xmlreader.cpp (timed-automata part and the queries section) over the event stream of
+(* The recursive-descent reader of xmlreader.cpp (timed-automata templates, LSC templates and the queries section) over the event stream of
    libxml2's xmlTextReader, transcribed procedure by procedure:
 
      events   [ty: "elem" | "text" | "ws" | "end", tag, empty, attrs (name -> value), txt]
@@ -24,10 +24,11 @@ Known == {"nta", "project", "imports", "declaration", "template", "instantiation
           "urgent", "committed", "branchpoint", "source", "target", "label", "nail", "lsc", "type", "mode", "yloccoord", "lsclocation", "prechart",
           "instance", "temperature", "message", "condition", "update", "anchor", "queries", "query", "formula", "comment", "option", "resource",
           "expect", "result", "details", "samples", "plot", "series"}
-Indexed == {"template", "location", "branchpoint", "transition", "label", "nail", "query"}
+Indexed == {"template", "location", "branchpoint", "transition", "label", "nail", "query", "lsc", "yloccoord", "instance", "temperature", "message", "condition", "update", "anchor"}
 TagOf(e) == IF e.tag \in Known THEN e.tag ELSE "NONE"
 
-S0(doc) == [ev |-> doc.events, cur |-> 0, path |-> << <<>> >>, names |-> <<>>, out |-> <<>>, exc |-> "", rv |-> "", fuel |-> 8 * Len(doc.events) + 40]
+S0(doc) == [ev |-> doc.events, cur |-> 0, path |-> << <<>> >>, names |-> <<>>, out |-> <<>>, exc |-> "", rv |-> "", fuel |-> 8 * Len(doc.events) + 40,
+            bottom |-> -1, ctype |-> ""]                 \* LSC: y location of the prechart bottom, type of the current chart
 Ok(s) == s.exc = "" /\ s.fuel > 0
 Tick(s) == [s EXCEPT !.fuel = @ - 1]
 NodeTy(s) == IF s.cur < 1 \/ s.cur > Len(s.ev) THEN "none" ELSE s.ev[s.cur].ty
@@ -95,7 +96,8 @@ AttrStr(s, a) == IF HasAttr(s, a) THEN Ret(s, Attr(s, a)) ELSE Throw(s, "logic_e
 NameOf(s, id) == LET hits == {q \in 1..Len(s.names) : s.names[q].id = id} IN
                  IF hits = {} THEN "" ELSE s.names[CHOOSE q \in hits : \A r \in hits : r <= q].name
 SetName(s, id, nm) == [s EXCEPT !.names = Append(@, [id |-> id, name |-> nm])]
-GetName(s, a) == IF HasAttr(s, a) /\ NameOf(s, Attr(s, a)) # "" THEN Ret(s, NameOf(s, Attr(s, a))) ELSE Throw(s, "XMLDocError")
+Named(s, id) == \E q \in 1..Len(s.names) : s.names[q].id = id            \* an instance line may be registered under an empty name
+GetName(s, a) == IF HasAttr(s, a) /\ Named(s, Attr(s, a)) THEN Ret(s, NameOf(s, Attr(s, a))) ELSE Throw(s, "XMLDocError")
 
 (* try { body } catch (TypeException& e) { parser->handle_error(e); } *)
 Catch(s) == IF s.exc = "TypeException" THEN Cb([s EXCEPT !.exc = ""], "handle_error", "") ELSE s
@@ -105,12 +107,13 @@ Declaration(s) ==
     IF ~Ok(b) \/ ~b.rv THEN b
     ELSE LET r == Read(b) IN Ret(IF Ok(r) /\ NodeTy(r) = "text" THEN Parse(r, "S_DECLARATION") ELSE r, TRUE)
 
-(* readString(NAME) -> readText *)
-Name(s) ==
-    LET b == Begin(s, "name", TRUE) IN
+(* readString(tag) -> readText *)
+ReadString(s, tag) ==
+    LET b == Begin(s, tag, TRUE) IN
     IF ~Ok(b) THEN b ELSE IF ~b.rv THEN Ret(b, "")
     ELSE LET r == Read(b) IN
          IF Ok(r) /\ NodeTy(r) = "text" THEN Ret(SetPath(r, "NONE?"), r.ev[r.cur].txt) ELSE Ret(r, "")
+Name(s) == ReadString(s, "name")
 
 Parameter(s) ==
     LET b == Begin(s, "parameter", TRUE) IN
@@ -194,10 +197,11 @@ InitEl(s) ==
          THEN LET g == GetName(b, "ref") IN IF ~Ok(g) THEN g ELSE Ret(Read(Cb(g, "proc_location_init", g.rv)), TRUE)
          ELSE Ret(Read(Cb(b, "handle_error", "missing init")), TRUE)
 
-EndPoint(s, tag) ==
+EndPointA(s, tag, attr) ==
     LET b == Begin(s, tag, FALSE) IN
     IF ~Ok(b) THEN b ELSE IF ~b.rv THEN Throw(b, "TypeException")
-    ELSE LET g == GetName(b, "ref") IN IF ~Ok(g) THEN g ELSE Ret(Read(g), g.rv)
+    ELSE LET g == GetName(b, attr) IN IF ~Ok(g) THEN g ELSE Ret(Read(g), g.rv)
+EndPoint(s, tag) == EndPointA(s, tag, "ref")
 RECURSIVE Labels(_)
 Labels(s) == IF ~Ok(s) THEN s ELSE LET l == Label(Tick(s)) IN IF ~Ok(l) \/ l.rv # TRUE THEN l ELSE Labels(l)
 RECURSIVE Nails(_)
@@ -240,6 +244,138 @@ Templ(s) ==
          IN Ret(Catch(body), TRUE)
 RECURSIVE Templates(_)
 Templates(s) == IF ~Ok(s) THEN s ELSE LET l == Templ(Tick(s)) IN IF ~Ok(l) \/ l.rv # TRUE THEN l ELSE Templates(l)
+
+
+(* ------------------------------------------------------------------------------------------------ LSC templates *)
+PathEv(x, pth) == Emit(x, [e |-> "path", n |-> pth, a |-> "", x |-> "", y |-> ""])
+Bool(b) == IF b THEN "true" ELSE "false"
+(* std::from_chars on the text of <lsclocation>: anything that does not start with a number throws std::logic_error THROUGH the
+   reader (the surrounding try catches `const char*` only); -1, a missing element and an element without text give XMLDocError *)
+NumTab == [x \in {"0", "1", "2", "3", "4", "5", "-1"} |-> CASE x = "0" -> 0 [] x = "1" -> 1 [] x = "2" -> 2 [] x = "3" -> 3 [] x = "4" -> 4 [] x = "5" -> 5 [] OTHER -> -1]
+LscLocation(s) ==
+    LET b == Begin(s, "lsclocation", TRUE) IN
+    IF ~Ok(b) THEN b ELSE IF ~b.rv THEN Throw(b, "XMLDocError")
+    ELSE LET r == Read(b) IN
+         IF ~Ok(r) THEN r
+         ELSE IF NodeTy(r) # "text" THEN Throw(r, "XMLDocError")
+         ELSE LET p == SetPath(r, "NONE?")
+                  txt == r.ev[r.cur].txt IN
+              IF ~Ok(p) THEN p
+              ELSE IF txt \notin DOMAIN NumTab THEN Throw(p, "logic_error")
+              ELSE IF NumTab[txt] = -1 THEN Throw(p, "XMLDocError") ELSE Ret(p, NumTab[txt])
+RECURSIVE Join(_, _)
+Join(ss, i) == IF i > Len(ss) THEN "" ELSE IF i = Len(ss) THEN ss[i] ELSE ss[i] \o "," \o Join(ss, i + 1)
+RECURSIVE Anchors(_, _)
+Anchors(s, acc) ==
+    IF ~Ok(s) THEN s
+    ELSE LET b == Begin(Tick(s), "anchor", FALSE) IN
+         IF ~Ok(b) THEN b
+         ELSE IF ~b.rv THEN (IF acc = <<>> THEN Throw(b, "TypeException") ELSE Ret(b, Join(acc, 1)))
+         ELSE LET g == GetName(b, "instanceid") IN
+              IF ~Ok(g) THEN g ELSE Anchors(Read(g), Append(acc, g.rv))
+Temperature(s) ==
+    LET b == Begin(s, "temperature", FALSE) IN
+    IF ~Ok(b) THEN b ELSE IF ~b.rv THEN Throw(b, "TypeException")
+    ELSE LET r == Read(b) IN
+         IF Ok(r) /\ NodeTy(r) = "text" THEN Ret(SetPath(r, "NONE?"), r.ev[r.cur].txt) ELSE Ret(r, "")
+(* label(true, kind): a missing label is reported (setPath + handle_error), not thrown *)
+LabelReq(s) ==
+    LET l == Label(s) IN
+    IF ~Ok(l) \/ l.rv = TRUE THEN l ELSE Cb(SetPath(l, "NONE?"), "handle_error", "label required")
+Yloccoord(s) == LET b == Begin(s, "yloccoord", FALSE) IN IF ~Ok(b) \/ ~b.rv THEN b ELSE Ret(Read(b), TRUE)
+Instance(s) ==
+    LET b == Begin(s, "instance", FALSE) IN
+    IF ~Ok(b) \/ ~b.rv THEN b
+    ELSE LET body ==
+               IF CorruptFrom(b.path, 1, "instance") THEN Throw(b, "logic_error")
+               ELSE LET ipath == PathStr(b, "instance")
+                        a == AttrStr(b, "id") IN
+                    IF ~Ok(a) THEN a
+                    ELSE LET id == a.rv
+                             r == Read(a) IN
+                         IF ~Ok(r) THEN r
+                         ELSE IF Blank(id) THEN Throw(r, "TypeException")
+                         ELSE LET n0 == ReadString(PathEv(r, ipath), "name")
+                                  n == IF Ok(n0) /\ n0.rv = "" THEN Ret(Cb(n0, "handle_error", "instance name required"), "") ELSE n0
+                              IN IF ~Ok(n) THEN n
+                                 ELSE Parse(Cb(PathEv(SetName(n, id, n.rv), ipath), "proc_instance_line", ""), "S_INSTANCE_LINE")
+         IN Ret(Catch(body), TRUE)
+Prechart(s) ==
+    LET b == Begin(s, "prechart", FALSE) IN
+    IF ~Ok(b) THEN b
+    ELSE IF ~b.rv THEN Ret(Cb([b EXCEPT !.bottom = -1], "prechart_set", "false"), FALSE)
+    ELSE LET body ==
+               IF CorruptFrom(b.path, 1, "prechart") THEN Throw(b, "logic_error")
+               ELSE LET ppath == PathStr(b, "prechart")
+                        l == LscLocation(Read(b)) IN
+                    IF ~Ok(l) THEN l
+                    ELSE LET s1 == [l EXCEPT !.bottom = l.rv]
+                             s2 == IF s1.ctype \in {"existential", "Existential", "EXISTENTIAL"} THEN Cb(PathEv(s1, ppath), "handle_error", "existential chart with prechart") ELSE s1
+                         IN Cb(s2, "prechart_set", "true")
+         IN Ret(Catch(body), TRUE)
+Message(s) ==
+    LET b == Begin(s, "message", TRUE) IN
+    IF ~Ok(b) \/ ~b.rv THEN b
+    ELSE LET body ==
+               IF CorruptFrom(b.path, 1, "message") THEN Throw(b, "logic_error")
+               ELSE LET mpath == PathStr(b, "message")
+                        f == EndPoint(Read(b), "source")
+                        t == EndPoint(f, "target")
+                        l == LscLocation(t) IN
+                    IF ~Ok(f) THEN f ELSE IF ~Ok(t) THEN t ELSE IF ~Ok(l) THEN l
+                    ELSE LabelReq(PathEv(Cb(PathEv(l, mpath), "proc_message", f.rv \o "->" \o t.rv \o ":" \o ToString(l.rv) \o ":" \o Bool(l.rv < l.bottom)), mpath))
+         IN Ret(Catch(body), TRUE)
+Condition(s) ==
+    LET b == Begin(s, "condition", TRUE) IN
+    IF ~Ok(b) \/ ~b.rv THEN b
+    ELSE LET body ==
+               IF CorruptFrom(b.path, 1, "condition") THEN Throw(b, "logic_error")
+               ELSE LET cpath == PathStr(b, "condition")
+                        an == Anchors(Read(b), <<>>)
+                        l == LscLocation(an)
+                        tm == Temperature(PathEv(l, cpath)) IN
+                    IF ~Ok(an) THEN an ELSE IF ~Ok(l) THEN l ELSE IF ~Ok(tm) THEN tm
+                    ELSE LabelReq(Cb(tm, "proc_condition", an.rv \o ":" \o ToString(l.rv) \o ":" \o Bool(l.rv < l.bottom) \o ":" \o Bool(tm.rv = "hot")))
+         IN Ret(Catch(body), TRUE)
+Update(s) ==
+    LET b == Begin(s, "update", TRUE) IN
+    IF ~Ok(b) \/ ~b.rv THEN b
+    ELSE LET body ==
+               IF CorruptFrom(b.path, 1, "update") THEN Throw(b, "logic_error")
+               ELSE LET upath == PathStr(b, "update")
+                        an == EndPointA(Read(b), "anchor", "instanceid")
+                        l == LscLocation(an) IN
+                    IF ~Ok(an) THEN an ELSE IF ~Ok(l) THEN l
+                    ELSE LabelReq(Cb(PathEv(l, upath), "proc_LSC_update", an.rv \o ":" \o ToString(l.rv) \o ":" \o Bool(l.rv < l.bottom)))
+         IN Ret(Catch(body), TRUE)
+RECURSIVE Yloccoords(_)
+Yloccoords(s) == IF ~Ok(s) THEN s ELSE LET l == Yloccoord(Tick(s)) IN IF ~Ok(l) \/ l.rv # TRUE THEN l ELSE Yloccoords(l)
+RECURSIVE Instances(_)
+Instances(s) == IF ~Ok(s) THEN s ELSE LET l == Instance(Tick(s)) IN IF ~Ok(l) \/ l.rv # TRUE THEN l ELSE Instances(l)
+RECURSIVE Messages(_)
+Messages(s) == IF ~Ok(s) THEN s ELSE LET l == Message(Tick(s)) IN IF ~Ok(l) \/ l.rv # TRUE THEN l ELSE Messages(l)
+RECURSIVE Conditions(_)
+Conditions(s) == IF ~Ok(s) THEN s ELSE LET l == Condition(Tick(s)) IN IF ~Ok(l) \/ l.rv # TRUE THEN l ELSE Conditions(l)
+RECURSIVE Updates(_)
+Updates(s) == IF ~Ok(s) THEN s ELSE LET l == Update(Tick(s)) IN IF ~Ok(l) \/ l.rv # TRUE THEN l ELSE Updates(l)
+LscTempl(s) ==
+    LET b == Begin(s, "lsc", TRUE) IN
+    IF ~Ok(b) \/ ~b.rv THEN b
+    ELSE IF CorruptFrom(b.path, 1, "lsc") THEN Throw(b, "logic_error")
+    ELSE LET tpath == PathStr(b, "lsc")
+             r == Read(b)
+             body == LET n == Name(r)
+                         p == Parameter(n)
+                         ty == ReadString(p, "type")
+                         mo == ReadString(ty, "mode")
+                     IN IF ~Ok(r) THEN r ELSE IF ~Ok(n) THEN n ELSE IF ~Ok(p) THEN p ELSE IF ~Ok(ty) THEN ty ELSE IF ~Ok(mo) THEN mo
+                        ELSE LET s1 == Cb(PathEv([mo EXCEPT !.ctype = ty.rv], tpath), "proc_begin", n.rv \o ":" \o ty.rv \o ":" \o mo.rv)
+                                 s2 == Prechart(Instances(Yloccoords(Declaration(s1))))
+                                 s3 == Updates(Conditions(Messages(s2)))
+                             IN IF Ok(s3) THEN Cb(PathEv(s3, tpath), "proc_end", "") ELSE s3
+         IN Ret(Catch(body), TRUE)
+RECURSIVE LscTemplates(_)
+LscTemplates(s) == IF ~Ok(s) THEN s ELSE LET l == LscTempl(Tick(s)) IN IF ~Ok(l) \/ l.rv # TRUE THEN l ELSE LscTemplates(l)
 
 Instantiation(s) ==
     LET b == Begin(s, "instantiation", FALSE) IN
@@ -336,11 +472,11 @@ Project(doc) ==
                 s1 == Cb(Emit(n, [e |-> "path", n |-> PathStr(n, "NONE?"), a |-> "", x |-> "", y |-> ""]), "parse", "builtin")
                 s2 == Declaration(Read(s1))
                 s3 == Templates(s2)
-                s4 == Begin(s3, "lsc", TRUE)                     \* while (lscTempl()): the universe has no LSC template
+                s4 == LscTemplates(s3)
                 s5 == System(Instantiation(s4))
                 e == End(s5, IF n.rv THEN "nta" ELSE "project")
                 s6 == IF Ok(e) /\ ~e.rv THEN Queries(e) ELSE e
-            IN IF Ok(s4) /\ s4.rv = TRUE THEN Throw(s4, "unsupported-in-model") ELSE IF ~Ok(s6) THEN s6 ELSE Cb(s6, "done", "")
+            IN IF ~Ok(s6) THEN s6 ELSE Cb(s6, "done", "")
 
 Outcome(r) == IF r.exc = "" THEN (IF r.fuel > 0 THEN "return" ELSE "diverges") ELSE "throw:" \o r.exc
 Terminates(r) == r.fuel > 0
